@@ -206,6 +206,8 @@ func ruleR13h(c *Ctx, rule string, floor int) {
 		} else {
 			c.add(rule, key, auxPos, Violated, "encoding/json writes "+typeShort(T)+" with key(s) "+strings.Join(missing, ", ")+" that the struct decoded by its UnmarshalJSON does not declare: the value is dropped when the entry is read back, the round trip changes the content and the recomputed hash differs")
 		}
+		envelopeFillsReceiver(c, rule, fn, T)
+		envelopeParsesFullWidth(c, rule, fn, T)
 	}
 	if n < floor {
 		c.undecided(rule, "floor:envelope-decoders", token.NoPos, fmt.Sprintf("expected at least %d UnmarshalJSON methods decoding through an auxiliary struct (ChainedLog, SetMetadataLogPayload, DeleteMetadataLogPayload); found %d", floor, n))
@@ -253,4 +255,105 @@ func derivesFromParam(v ssa.Value, p *ssa.Parameter) bool {
 		}
 	}
 	return false
+}
+
+// envelopeFillsReceiver: the second half of the envelope idiom — what was decoded reaches the receiver. Every
+// field of T that encoding/json writes is stored into the receiver: by a store into the field of the receiver, by a
+// store into the field of the composite that is then copied over the receiver (`*s = T{…}`), or by copying a whole
+// value that was not built field by field (`*l = ChainedLog(raw.auxLog)`).
+func envelopeFillsReceiver(c *Ctx, rule string, fn *ssa.Function, T types.Type) {
+	st := T.Underlying().(*types.Struct)
+	recv := fn.Params[0]
+	filled := map[string]bool{}
+	whole := false
+	var bases []ssa.Value
+	bases = append(bases, recv)
+	for _, b := range fn.Blocks {
+		for _, ins := range b.Instrs {
+			s, ok := ins.(*ssa.Store)
+			if !ok || s.Addr != ssa.Value(recv) {
+				continue
+			}
+			v := s.Val
+			for {
+				if cv, ok := v.(*ssa.ChangeType); ok {
+					v = cv.X
+					continue
+				}
+				break
+			}
+			if ld, ok := v.(*ssa.UnOp); ok && ld.Op == token.MUL {
+				if al, ok := ld.X.(*ssa.Alloc); ok && types.Identical(al.Type().Underlying().(*types.Pointer).Elem(), T) {
+					bases = append(bases, al)
+					continue
+				}
+			}
+			if _, zero := v.(*ssa.Const); zero {
+				continue // `*s = T{…}` compiled as: zero the receiver, then store the listed fields
+			}
+			whole = true
+		}
+	}
+	for _, base := range bases {
+		for _, r := range *base.Referrers() {
+			fa, ok := r.(*ssa.FieldAddr)
+			if !ok {
+				continue
+			}
+			for _, r2 := range *fa.Referrers() {
+				if s, ok := r2.(*ssa.Store); ok && s.Addr == ssa.Value(fa) {
+					if f := fieldOfAddr(fa); f != nil {
+						filled[f.Name()] = true
+					}
+				}
+			}
+		}
+	}
+	for i := 0; i < st.NumFields(); i++ {
+		f := st.Field(i)
+		tag := reflect.StructTag(st.Tag(i)).Get("json")
+		if tag == "-" || !f.Exported() {
+			continue
+		}
+		key := typeShort(T) + ".UnmarshalJSON:decoded-" + f.Name() + "-reaches-the-receiver"
+		c.NSites++
+		if whole || filled[f.Name()] {
+			c.ok(rule, key, fn.Pos(), "the field is stored into the receiver")
+		} else {
+			c.bad(rule, key, fn.Pos(), typeShort(T)+".UnmarshalJSON never stores field "+f.Name()+" of its receiver: the value written by encoding/json is lost when the entry is read back, the round trip changes the content and the recomputed hash differs")
+		}
+	}
+}
+
+// envelopeParsesFullWidth: identifiers are written as 64-bit integers (uint64 / *big.Int columns); a decoder that
+// parses one with a smaller bit size refuses entries the writer produced.
+func envelopeParsesFullWidth(c *Ctx, rule string, fn *ssa.Function, T types.Type) {
+	k := 0
+	seen := map[*ssa.Function]bool{fn: true}
+	var scan func(g *ssa.Function, depth int)
+	scan = func(g *ssa.Function, depth int) {
+		allCalls(g, func(ci ssa.CallInstruction) {
+			name := calleeFullName(ci)
+			if name != "strconv.ParseUint" && name != "strconv.ParseInt" {
+				// helpers of the repository the decoder hands its input to
+				if h := staticCallee(ci); h != nil && depth < 2 && !seen[h] && len(h.Blocks) > 0 && strings.HasPrefix(fnPkgPath(origin(h)), modPath) {
+					seen[h] = true
+					scan(h, depth+1)
+				}
+				return
+			}
+			k++
+			key := fmt.Sprintf("%s.UnmarshalJSON:%s#%d:parses-64-bits", typeShort(T), strings.TrimPrefix(name, "strconv."), k)
+			bits, ok := constInt(ci.Common().Args[2])
+			switch {
+			case !ok:
+				c.undecided(rule, key, ci.Pos(), "the bit size of the parse is not a constant")
+			case bits == 64:
+				c.ok(rule, key, ci.Pos(), "identifiers are parsed with the width they are written with (64 bits)")
+			default:
+				c.bad(rule, key, ci.Pos(), fmt.Sprintf("the decoder parses an integer written as a 64-bit value with bit size %d: an entry with a larger identifier cannot be read back (the log can no longer be replayed or verified)", bits))
+			}
+		})
+	}
+	scan(fn, 0)
 }
